@@ -214,6 +214,7 @@ fn foreign_elem(rng: &mut Rng, known: &BTreeSet<u16>) -> (u16, Node) {
             len: if rng.chance(2, 3) { Len::Ber } else { Len::None },
             apdu: false,
             payload: Payload::Leaf(body),
+            prefix_override: None,
         },
     )
 }
@@ -730,7 +731,7 @@ impl<'a> Engine<'a> {
                 if let Payload::Leaf(p) = &elem.payload {
                     // more of the same payload (more digits, more text)
                     let more = if p.is_empty() { vec![0x31, 0x32] } else { p[..p.len().min(4)].to_vec() };
-                    junk.push(vec![Node { field: "more".into(), tag: vec![], len: Len::None, apdu: false, payload: Payload::Leaf(more) }]);
+                    junk.push(vec![Node { field: "more".into(), tag: vec![], len: Len::None, apdu: false, payload: Payload::Leaf(more), prefix_override: None }]);
                 }
                 for j in junk {
                     let mut t = tree.clone();
